@@ -1398,16 +1398,19 @@ Proof.
   exists s', r. repeat (split; [assumption|]). exact Gone.
 Qed.
 
-(* ---- known finding C17-K1: a crash inside insert_file's fall-back copy ---- *)
-Definition k1_digest (b : bytes) : id := map (fun x => 97 + x mod 6) b ++ [48; 48].
-
-Lemma crash_in_fallback_copy_refuted :
-  exists (digest : bytes -> id) (s0 : tst) (b : bytes) (k : nat) (c : N),
-    tinv digest s0 /\
-    let s := tc_crash_insert_file_copy digest s0 b k c in
-    tc_contains s (digest b) = true /\
-    exists served, content_of s (digest b) = Some served /\ digest served <> digest b.
+(* ---- a crash inside insert_file's fall-back copy (finding C17-K1, fixed by 7ead532) ---- *)
+Lemma reopen_lru_remove l k c : reopen (lru_remove l k) c = reopen l c.
 Proof.
-  exists k1_digest, (tc_empty 100), [1; 2; 3; 4], 2%nat, 100. split; [apply tinv_empty|].
-  vm_compute. split; [reflexivity|]. eexists. split; [reflexivity|]. discriminate.
+  destruct (lru_remove_props l k) as (_ & _ & _ & Rf & Rc & (_ & _ & _ & _ & Rn)).
+  rewrite (reopen_only_files l (lru_remove l k) c Rf Rc). rewrite Rn.
+  rewrite <- (next_h_reopen l c). apply set_nh_self.
+Qed.
+
+Theorem crash_in_fallback_copy_leaves_nothing digest s b k c :
+  tc_crash_insert_file_copy digest s b k c = tc_reopen s c.
+Proof.
+  unfold tc_crash_insert_file_copy, tc_reopen.
+  destruct (negb (valid_id (digest b))); [reflexivity|].
+  destruct (negb (blen b <=? cap (lru s))); [reflexivity|].
+  rewrite reopen_lru_remove. reflexivity.
 Qed.
